@@ -66,15 +66,15 @@ def make_check(arc, line):
         if parts[0] != "open:ok" or len(parts) != len(ops) + 1: return f"malformed output {out[:120]!r}"
         seen = {}
         for op, r in zip(ops, parts[1:]):
-            if op in seen and seen[op] != r and op[0] != "e":
+            if op in seen and seen[op] != r:
                 return f"call {op} answered {seen[op]!r} earlier and {r!r} later in the same sequence (a failed call must change nothing)"
             seen.setdefault(op, r)
-            if op[0] == "r" and not r.startswith("err"):
+            if op[0] in "re" and not r.startswith("err") and r != "lzh":
                 ext = V.recorded_extent(arc, int(op[1:]))
-                if ext is None: return f"stream {op} delivered {r!r} but the archive's records for it are not inside the file"
+                if ext is None: return f"call {op} delivered {r!r} but the archive's records for it are not inside the file"
                 start, ln = ext
-                if start + ln > len(arc): return f"stream {op} delivered {r!r} although the recorded extent [{start},{start + ln}) exceeds the file ({len(arc)} bytes)"
-                if r != V.show(arc[start:start + ln]): return f"stream {op} delivered {r!r}, the file bytes at the recorded extent are {V.show(arc[start:start + ln])!r}"
+                if start + ln > len(arc): return f"call {op} delivered {r!r} although the recorded extent [{start},{start + ln}) exceeds the file ({len(arc)} bytes)"
+                if r != V.show(arc[start:start + ln]): return f"call {op} delivered {r!r}, the file bytes at the recorded extent are {V.show(arc[start:start + ln])!r}"
         return None
     return chk
 
